@@ -589,3 +589,39 @@ def gen_alt_goals(rng, tier):
         base = lines + [f"run dfs full inv=none goal={goal} prune={prune} collect=none"]
         out.append((f"ag{i}", with_all_combos(base, [("dfs", "full"), ("bfs", "full"), ("dfs", "disabled"), ("bfs", "disabled")])))
     return out
+
+
+def gen_crash_after_dup(rng, tier):
+    """C14 "pending events of other nodes are untouched": identical messages between two live nodes whose queue order differs
+    from their id order (a duplication re-queued the older one behind the newer one), collected by a first stage; the second
+    stage's callback crashes a third node that has a pending timer or message of its own"""
+    out = []
+    for i in range(12 if tier == "quick" else 200):
+        lines = ["refenum", "node n0", "node n1", "node n2", "proc p0 n0", "proc p1 n1 rec", "proc p2 n2"]
+        lines += ["rule p0 0 L:m0 1 S:m1:=a:p1 S:m1:=a:p1" + (" S:m1:=a:p1" if rng.random() < 0.4 else ""),
+                  "rule p1 0 M:m1 0 L:m2:$", f"rule p2 0 L:m0 1 T:t0:{rng.randint(1, 3)}" + (" S:m3:=z:p1" if rng.random() < 0.5 else ""),
+                  "rule p2 1 T:t0 2", "rule p1 0 M:m3 0"]
+        lines += ["cb net dupl 1", "cb local p0 m0 =go", "cb local p2 m0 =go",
+                  f"run {rng.choice(['dfs', 'bfs'])} {rng.choice(['full', 'disabled'])} inv=none goal=noev prune=dgt:{rng.choice([1, 2])} collect=always",
+                  "cb crash n2",
+                  f"runfrom {rng.choice(['dfs', 'bfs'])} {rng.choice(['full', 'disabled'])} inv=none goal=noev prune=none collect=none"]
+        out.append((f"cd{i}", lines))
+    return out
+
+
+def gen_visited_precallback(rng, tier):
+    """C16: the state a staged run really starts from is the collected state *after* the callback.  A latch is disarmed by a
+    message that may be corrupted (the corrupted copy is re-queued under the same id), the first stage collects the two
+    depth-1 states (delivered / corrupted copy still in flight); the second stage arms the latch in its callback: from the
+    second start state the delivery leads to the first start state as it was *before* the callback, which nobody has explored"""
+    out = []
+    for i in range(16 if tier == "quick" else 250):
+        tag = rng.choice(["=a", "=b", '="q"', '="x"y"', "=c"])
+        lines = ["refenum", "node n0", "node n1", "proc p0 n0", "proc p1 n1"]
+        lines += [f"rule p0 0 L:m0 1 S:m1:{tag}:p1", "rule p1 0 M:m1 0", "rule p1 1 M:m1 0", "rule p1 0 L:m2 1", "rule p1 1 L:m2 1"]
+        lines += ["cb net corrupt 1", "cb local p0 m0 =go",
+                  f"run {rng.choice(['dfs', 'bfs'])} {rng.choice(['full', 'partial', 'disabled'])} inv=none goal=noev prune=dgt:0 collect=dgt:0",
+                  "cb local p1 m2 =arm",
+                  f"runfrom {rng.choice(['dfs', 'bfs'])} {rng.choice(['full', 'partial'])} inv=none goal=noev prune=none collect=noev"]
+        out.append((f"vp{i}", lines))
+    return out
